@@ -41,6 +41,8 @@ def run(cx):
     cx.rule("C03.R3", "E3", "the process state is a copy of the root task's state")
     cx.rule("C03.R4", "K1", "a composite task writes Completed on itself only under an all-children-terminal fact (counting idiom, `all`, or no child nodes)")
     cx.rule("C03.R5", "TS", "a task is emitted at most once per terminal (and per message-bearing created) state")
+    cx.rule("C03.R7", "K1", "a scan that resumes a sleeping child inline (child.exec) ends its invocation there: the resumed child may finish inside the call and its own ending already reviews the parent, closes it and schedules the successor - going on would schedule the successor a second time")
+    r7(cx)
     cx.rule("C03.R6", "struct", "bulk closing (abort / undo) visits descendants transitively and covers every open state class")
     r1(cx)
     r2(cx)
@@ -453,3 +455,27 @@ def r6(cx):
     cx.ob("C03.R6", "follows:descent-unconditional", bool(rec) and over_children and not bad,
           "`Task::follows` recurses into every child that is not itself a match, whatever its state (recursion guarded by %s)" % (bad or "nothing"), rec[0].loc if rec else fo.loc())
     cx.floor("C03.R6", 6)
+
+
+
+def r7(cx):
+    from rules.c01 import RESUMERS
+    m = cx.m
+    pa = Prov(m, "alias")
+    exc = load_exc("c03_exceptions.json")
+    n = 0
+    for pat in RESUMERS:
+        f = m.one(pat)
+        execs = [c for c in f.calls() if c.q == T.Q_EXEC]
+        scheds = [c for c in f.calls() if c.q == T.Q_SCHED]
+        closes = [c for c in f.calls() if c.q == T.Q_SET_STATE and pa.root(f, c.args[1])[0] == "agg" and pa.root(f, c.args[1])[2] == "Completed"]
+        for e in execs:
+            n += 1
+            after = [c for c in scheds + closes if e.target is not None and f.can_reach(e.target, c.b)]
+            key = "%s:successor-after-resume" % f.short
+            if after and key in exc:
+                cx.ob("C03.R7", key, True, "`%s`: the successor can be scheduled after an inline resume, listed exception: %s" % (f.short, exc[key]), e.loc, exception=True)
+                continue
+            cx.ob("C03.R7", key, not after,
+                  "`%s` returns after it resumed a child inline%s" % (f.short, "" if not after else " - but goes on to %s: a child that finishes inside the resume has already had its parent reviewed, closed and the successor scheduled; the successor is started twice and the workflow can be reported completed while the second copy is open" % sorted({short_name(c.q) + " line %s" % c.line for c in after})), e.loc)
+    cx.floor("C03.R7", 3)
